@@ -22,6 +22,7 @@ import (
 )
 
 const (
+	appFile  = "cmd/kube-gateway/app/proxy.go"
 	dispFile = "pkg/gateway/proxy/dispatcher/dispatcher.go"
 	sarFile = "pkg/gateway/authorization/webhook/subjectaccessreview.go"
 	tokFile = "pkg/gateway/authentication/token/webhook/tokenreview.go"
@@ -174,6 +175,33 @@ func main() {
 			lib.Fatalf("dispatcher.ServeHTTP not found in %s", dispFile)
 		}
 		fmt.Fprintf(&b, "/-- dispatcher.ServeHTTP: the receiver of MatchAttributes is a variable defined as `extraInfo.UpstreamCluster` -/\ndef dispatcherUsesBoundCluster : Bool := %v\n", dispatchesToBound(g, serve))
+		// ---- the shipped filter order (cmd/kube-gateway/app/proxy.go): every `handler = pkg.WithX(handler, …)` in order,
+		// innermost first (each later one wraps the earlier ones and so runs BEFORE them)
+		app := g.ParseFile(appFile)
+		build := lib.FuncDecl(app, "", "buildProxyHandlerChainFunc")
+		if build == nil {
+			lib.Fatalf("buildProxyHandlerChainFunc not found in %s", appFile)
+		}
+		var chain []string
+		ast.Inspect(build, func(n ast.Node) bool {
+			as, ok := n.(*ast.AssignStmt)
+			if !ok || len(as.Lhs) != 1 || len(as.Rhs) != 1 {
+				return true
+			}
+			if id, ok := as.Lhs[0].(*ast.Ident); !ok || id.Name != "handler" {
+				return true
+			}
+			if c, ok := as.Rhs[0].(*ast.CallExpr); ok {
+				if sel, ok := c.Fun.(*ast.SelectorExpr); ok {
+					chain = append(chain, sel.Sel.Name)
+				}
+			}
+			return true
+		})
+		if len(chain) == 0 {
+			lib.Fatalf("no filter found in buildProxyHandlerChainFunc")
+		}
+		fmt.Fprintf(&b, "/-- filters of buildProxyHandlerChainFunc, innermost first -/\ndef proxyChain : List String := %s\n", lib.LeanStrList(chain))
 		b.WriteString("end KG.Gen.C12\n")
 		g.Emit("C12.lean", b.String())
 	})
